@@ -183,6 +183,60 @@ Definition unflatten (sep : bytes) (r : jmap) : jmap :=
   let '(other, aff) := fold_left (unflatten_step sep) r ([], []) in
   fold_left arrayify_at aff other.
 
+(* ---- mlr flatten -f / unflatten -f ---- *)
+
+(* Mlrmap.FlattenFields(fieldNameSet, separator) *)
+Definition flatten_fields (fs : list bytes) (sep : bytes) (r : jmap) : jmap :=
+  if existsb (fun kv => is_coll (snd kv)) r
+  then fold_left (fun acc kv => if is_coll (snd kv) && bmem (fst kv) fs then putall (ftm sep (fst kv) (snd kv)) acc
+                                else jput (fst kv) (snd kv) acc) r []
+  else r.
+
+(* putIndexedOnMap when pieces may be empty (CopyUnflattenFields has no empty-piece check): SplitAXHelper turns ""
+   into VOID, which is accepted as the LAST index (IsStringOrInt) and rejected everywhere else
+   ("map indices must be string, int", NewMlrvalForAutoDeepen, non-collection base).  Levels created on the way
+   stay when a deeper level fails.  Result: (map after the call, success). *)
+Fixpoint pimv (idx : list bytes) (v : jv) (m : jmap) : jmap * bool :=
+  match idx with
+  | [] => (m, false)
+  | k :: rest =>
+      match rest with
+      | [] => (jput k v m, true)
+      | k2 :: _ =>
+          if is_nil k then (m, false)
+          else
+            let sub := match jget k m with
+                       | None => if is_nil k2 then None else Some []
+                       | Some (JMap mm) => Some mm
+                       | Some (JArr _) => None
+                       | Some _ => if is_nil k2 then None else Some []
+                       end in
+            match sub with
+            | None => (m, false)
+            | Some mm => let '(mm', ok) := pimv rest v mm in (jput k (JMap mm') m, ok)
+            end
+      end
+  end.
+
+Definition unflatten_fields_step (fs : list bytes) (sep : bytes) (st : jmap * list bytes) (kv : bytes * jv)
+  : jmap * list bytes :=
+  let '(other, aff) := st in
+  let '(k, v) := kv in
+  if containsb sep k then
+    let pieces := split sep k in
+    let base := hd [] pieces in
+    if bmem base fs
+    then (fst (pimv pieces (ut v) other), if bmem base aff then aff else aff ++ [base])
+    else (jput k (ut v) other, aff)
+  else (jput k (ut v) other, aff).
+
+(* Mlrmap.CopyUnflattenFields.  None: lib.InternalCodingErrorIf(oldValue == nil) -- an affected base that was never
+   created (the process exits with "Internal coding error detected") *)
+Definition unflatten_fields (fs : list bytes) (sep : bytes) (r : jmap) : option jmap :=
+  let '(other, aff) := fold_left (unflatten_fields_step fs sep) r ([], []) in
+  if forallb (fun b => match jget b other with Some _ => true | None => false end) aff
+  then Some (fold_left arrayify_at aff other) else None.
+
 (* ---- pkg/cli/flatten_unflatten.go ---- *)
 Definition is_nestable (fmt : bytes) : bool := beqb fmt (B "json") || beqb fmt (B "jsonl") || beqb fmt (B "yaml").
 
